@@ -91,7 +91,17 @@ impl Drop for Probe {
     }
 }
 
-type Eph = Ephemeron<Node, Gc<Node>>;
+/// The value of an ephemeron: an optional `Gc` handle and any number of weak handles (`WeakGc`, `Ephemeron`) that
+/// lie directly in it, i.e. `Ephemeron<Node, WeakGc<Node>>`, `Ephemeron<Node, Ephemeron<Node, ..>>` and their
+/// combinations. The value is built before `Ephemeron::new` and never changes afterwards.
+#[derive(Trace, Finalize)]
+struct Val {
+    g: Option<Gc<Node>>,
+    w: Vec<(u32, WeakGc<Node>)>,
+    e: Vec<(u32, Eph)>,
+}
+
+type Eph = Ephemeron<Node, Val>;
 type Wm = WeakMap<Node, Gc<Node>>;
 
 #[derive(Trace)]
@@ -137,6 +147,8 @@ struct World {
     weaks: BTreeMap<u32, WeakGc<Node>>,
     ephs: BTreeMap<u32, Eph>,
     eph_holder: BTreeMap<u32, u32>,
+    /// weak row (WeakGc or Ephemeron) -> the ephemeron in whose value its handle lies
+    in_value: BTreeMap<u32, u32>,
     maps: BTreeMap<u32, Wm>,
     map_holder: BTreeMap<u32, u32>,
 }
@@ -159,7 +171,55 @@ impl World {
         Ok(g)
     }
 
+    /// Row ids from the outermost ephemeron (held by the mutator or a node) down to row `x`.
+    fn path(&self, x: u32) -> Vec<u32> {
+        let mut p = vec![x];
+        let mut c = x;
+        while let Some(&o) = self.in_value.get(&c) {
+            p.push(o);
+            c = o;
+        }
+        p.reverse();
+        p
+    }
+
+    /// Follows `path` (ephemeron ids, each lying in the value of the one before) from `eph`; the last element of
+    /// `rest` is looked up among the ephemerons (`f`) or, with `weak`, among the weak pointers (`g`) of the value.
+    fn descend<R>(
+        eph: &Eph,
+        rest: &[u32],
+        weak: bool,
+        f: &mut dyn FnMut(&Eph) -> R,
+        g: &mut dyn FnMut(&WeakGc<Node>) -> R,
+    ) -> Result<R, String> {
+        let Some((&next, tail)) = rest.split_first() else {
+            return Ok(f(eph));
+        };
+        let v = eph.value().ok_or_else(|| format!("the ephemeron holding row {next} has no value"))?;
+        if let Some(k) = &v.g {
+            check(k, k.probe.id, "ephemeron value on a path");
+        }
+        if tail.is_empty() && weak {
+            let (_, w) = v.w.iter().find(|(id, _)| *id == next).ok_or_else(|| format!("weak {next} not in the value"))?;
+            return Ok(g(w));
+        }
+        let (_, inner) = v.e.iter().find(|(id, _)| *id == next).ok_or_else(|| format!("ephemeron {next} not in the value"))?;
+        Self::descend(inner, tail, weak, f, g)
+    }
+
     fn with_eph<R>(&self, e: u32, f: impl FnOnce(&Eph) -> R) -> Result<R, String> {
+        if self.in_value.contains_key(&e) {
+            let p = self.path(e);
+            let mut f = Some(f);
+            return self.with_top_eph(p[0], |top| {
+                Self::descend(top, &p[1..], false, &mut |x| (f.take().expect("once"))(x), &mut |_| unreachable!())
+            })?;
+        }
+        self.with_top_eph(e, f)
+    }
+
+    /// An ephemeron held by the mutator or by a node.
+    fn with_top_eph<R>(&self, e: u32, f: impl FnOnce(&Eph) -> R) -> Result<R, String> {
         let h = *self.eph_holder.get(&e).ok_or_else(|| format!("unknown ephemeron {e}"))?;
         if h == 0 {
             return self.ephs.get(&e).map(f).ok_or_else(|| format!("ephemeron {e} not held"));
@@ -167,6 +227,17 @@ impl World {
         let n = self.node(h)?;
         let v = n.ephs.borrow();
         v.iter().find(|(id, _)| *id == e).map(|(_, x)| f(x)).ok_or_else(|| format!("ephemeron {e} not in node {h}"))
+    }
+
+    fn with_weak<R>(&self, w: u32, f: impl FnOnce(&WeakGc<Node>) -> R) -> Result<R, String> {
+        if self.in_value.contains_key(&w) {
+            let p = self.path(w);
+            let mut f = Some(f);
+            return self.with_top_eph(p[0], |top| {
+                Self::descend(top, &p[1..], true, &mut |_| unreachable!(), &mut |x| (f.take().expect("once"))(x))
+            })?;
+        }
+        self.weaks.get(&w).map(f).ok_or_else(|| format!("unknown weak {w}"))
     }
 
     fn with_map<R>(&mut self, m: u32, f: impl FnOnce(&mut Wm) -> R) -> Result<R, String> {
@@ -270,9 +341,8 @@ impl World {
             }
             "upgrade" => {
                 let w = num(o, "w")?;
-                let wk = self.weaks.get(&w).ok_or_else(|| format!("unknown weak {w}"))?;
-                let up = wk.is_upgradable();
-                match wk.upgrade() {
+                let (up, got) = self.with_weak(w, |wk| (wk.is_upgradable(), wk.upgrade()))?;
+                match got {
                     Some(g) => {
                         let id = g.probe.id;
                         check(&g, id, "upgrade");
@@ -292,11 +362,31 @@ impl World {
             }
             "dropw" => {
                 let w = num(o, "w")?;
-                self.weaks.remove(&w).ok_or_else(|| format!("unknown weak {w}"))?;
+                self.weaks.remove(&w).ok_or_else(|| format!("weak {w} not held by the mutator"))?;
             }
             "eph" => {
                 let (e, k, v, h) = (num(o, "e")?, num(o, "k")?, num(o, "v")?, num(o, "h")?);
-                let val = self.node(v)?.clone();
+                let mut val = Val { g: if v == 0 { None } else { Some(self.node(v)?.clone()) }, w: Vec::new(), e: Vec::new() };
+                // the weak handles the mutator moves into the value (it must hold them itself)
+                let ws: Vec<u32> = match o.get("ws") {
+                    None => Vec::new(),
+                    Some(a) => a.as_array().ok_or("ws is not a list")?.iter().filter_map(Value::as_u64).map(|x| x as u32).collect(),
+                };
+                self.node(k)?;
+                if h != 0 {
+                    self.node(h)?;
+                }
+                for x in ws {
+                    if let Some(wk) = self.weaks.remove(&x) {
+                        val.w.push((x, wk));
+                    } else if self.eph_holder.get(&x) == Some(&0) && !self.in_value.contains_key(&x) {
+                        let inner = self.ephs.remove(&x).ok_or_else(|| format!("ephemeron {x} not held by the mutator"))?;
+                        val.e.push((x, inner));
+                    } else {
+                        return Err(format!("row {x} is not held by the mutator"));
+                    }
+                    self.in_value.insert(x, e);
+                }
                 let eph = Ephemeron::new(self.node(k)?, val);
                 if h == 0 {
                     self.ephs.insert(e, eph);
@@ -307,17 +397,28 @@ impl World {
             }
             "ephval" => {
                 let e = num(o, "e")?;
-                let r = self.with_eph(e, |eph| match eph.value() {
+                let (r, s) = self.with_eph(e, |eph| match eph.value() {
                     Some(v) => {
-                        check(&v, v.probe.id, "ephemeron value");
                         if !eph.has_value() {
                             bad(format!("ephemeron {e}: value() is Some but has_value() is false"));
                         }
-                        v.probe.id
+                        match &v.g {
+                            Some(g) => {
+                                check(g, g.probe.id, "ephemeron value");
+                                (g.probe.id, 1)
+                            }
+                            None => (0, 1),
+                        }
                     }
-                    None => 0,
+                    None => {
+                        if eph.has_value() {
+                            bad(format!("ephemeron {e}: value() is None but has_value() is true"));
+                        }
+                        (0, 0)
+                    }
                 })?;
                 out.insert("r".into(), json!(r));
+                out.insert("s".into(), json!(s));
             }
             "drope" => {
                 let e = num(o, "e")?;
